@@ -6,7 +6,7 @@ import common
 import vrun
 from common import canon_errors
 
-LEVEL = "proof"
+LEVEL = "translation_validation"
 COQ_FILES = ["theories/Model/Validate.v"]
 FACT_GROUPS = ["F1", "F2", "F3", "F5", "F6", "F8"]
 ALLOWED_AXIOMS = []
